@@ -244,10 +244,14 @@ class World:
         else:
             resources = {'cpu': _CPU[cores], 'memory': _MEMORY[ic], 'storage': '0'}
         s: Dict[str, Any] = {
-            'job_id': int(rel), 'absolute_parent_ids': ints(absps), 'in_update_parent_ids': ints(relps), 'always_run': ar == '1',
+            'job_id': int(rel), 'in_update_parent_ids': ints(relps), 'always_run': ar == '1',
             'process': {'type': 'docker', 'image': 'ubuntu:22.04', 'command': ['true'], 'mount_docker_socket': False},
             'resources': resources,
         }
+        if absps.startswith('L'):
+            s['parent_ids'] = ints(absps[1:])         # the deprecated spelling (old clients): validate.py renames it
+        else:
+            s['absolute_parent_ids'] = ints(absps)
         if absg != 'N':
             s['absolute_job_group_id'] = int(absg)
         else:
@@ -256,6 +260,14 @@ class World:
 
     async def op_insertJobs(self, b, upd, u, *specs):
         js = [self.job_spec(t) for t in specs]
+        # as the handlers create_jobs / create_jobs_for_update do: validate (and rewrite deprecated keys), then _create_jobs
+        from batch.front_end.validate import validate_and_clean_jobs
+        from hailtop.utils.validate import ValidationError
+        from aiohttp import web
+        try:
+            validate_and_clean_jobs(js)
+        except ValidationError as e:
+            raise web.HTTPBadRequest(reason=e.reason)
         await self.fe._create_jobs(userdata(int(u)), js, int(b), int(upd), self.app)
         return 0
 
